@@ -239,3 +239,6 @@ func (b *B) Contract(i int) *common.Address {
 	}
 	return &cs[i]
 }
+
+// SetNext makes the next transaction built for `from` use nonce n (and count up from there).
+func (b *B) SetNext(from int, n uint32) { b.next[from] = n }
